@@ -46,6 +46,9 @@ CLAIMED = {
  "C11": dict(tech="writer/reader table agreement of the state (de)serialiser: emitted tags vs decoder branches; type coverage from dataclass field annotations reachable from State and from the return types of the expression-function table; recursive-encoding shape of every encoder branch; field agreement of the hand-written Action pair; index maintenance of the clean-up via CFG",
              text="Decides necessary conditions of 'serialising succeeds for every reachable state and restores every field': tag agreement, encoder coverage of every type a State can hold (found F9a regex: repaired; F9b ComparisonExpression: known), recursive encoding in every branch (F10: repaired), Action field agreement, and that the age-based clean-up keeps flow_id_states / child lists / actions in step and only collects done, inactive, old instances. Behavioural equality after restore or ageing is not decided.",
              ref="DESIGN.md C11"),
+ "C17": dict(tech="forward may-taint over each function's CFG from LLM completions to template/expression/code evaluators (with a planted positive example on every run); decorator-based who-may-consume rule; exception-containment of the non-action consumers; handler totality through the call graph",
+             text="Decides for all LLM outputs at once that no completion-derived value reaches a template, expression or code evaluator (literal_eval only for generated values), that every consumer of a completion runs as an @action under the dispatcher's containment (C03.a), and that the two consumers outside actions (v1 dynamic flow start: F15 repaired; v2 AddFlowsAction) are protected and total. 'Every hostile text gives a well-formed reply' beyond that containment argument is not decided.",
+             ref="DESIGN.md C17"),
 }
 NA = {
  "C18": "equality of string results over all chunkings of a stateful transducer; no structural necessary condition that is not a brittle proxy (DESIGN.md C18)",
